@@ -3,6 +3,10 @@
 import json
 
 ARMED = {
+ "C18": ("fixed-width codec extraction (region, endianness, bias, widening, component path) and writer/reader comparison; bit-field constant profiles (mask/flag/shift) with consistency arithmetic and extraction order; stream field-sequence comparison of sibling (un)marshalers; comparator sequence check",
+         "Static decision of necessary conditions of 'spatial keys, packed block indices and run-length volumes preserve geometry': the block-coordinate key is z, y, x × 4-byte big-endian of (c − MinInt32) computed in 64 bits, decoded from the same regions with the inverse bias after a length check, and all wrappers delegate to it (R18.1); the packed-index encoder and both decoders agree on mask, sign flag, shift and packing order, and the constants are mutually consistent (R18.2); the six run (un)marshalers share field order, width and endianness and list codecs use the 12-byte key unit (R18.3); the run comparator orders by z, y, x ascending (R18.4). Level 'other': Normalize/Partition/Split/FitToBounds/Add/Excise voxel-set preservation and ROI query consistency are value-level and not decided.",
+         "Trusts go/ssa and encoding/binary.",
+         "DESIGN.md §2 C18"),
  "C08": ("op × structure matrix by must-pass-through on success exits (with per-iteration loop obligations); version-argument provenance over all single-version labelmap functions; ancestry-slice/position agreement of the mapping visibility tables; error-only edges of existence and membership tests; store-write ⇒ cache-operation path search with callee summaries; provenance of the aggregated delta table",
          "Static decision of necessary conditions of 'label indices, voxels and mappings stay consistent under proofreading': merge, renumber, cleave, split and supervoxel split pass on every success exit through their mapping update, index writes/deletes and block rewrite (R8.1); every version handed to a callee in a single-version labelmap function is the function's own (R8.2); the visibility table cached for a version is built from that version's own ancestry, the nearest visible version wins, and each version's log is replayed under that version (R8.3); a missing index or a request-named supervoxel outside the body ends the operation with an error (R8.4); every store write/delete of a label index is followed by the update or invalidation of its cache entry (R8.5); block writes feed the whole aggregated count table to the index of every affected body (R8.6). Level 'other': that counts, sparse volumes and mapped reads equal a voxel scan, and the arithmetic of split/cleave index surgery, are value-level and not decided.",
          "Trusts go/ssa; functions handling several versions (ancestry walks, messages) are outside R8.2; storage failures between the steps of an operation are not modelled.",
